@@ -131,6 +131,27 @@ class C18(Oracle):
         pb += q
         if pa != p or pb != p + q:
             out.append(V('position/augmented-assignment-aliases', f'{p} += {q}'))
+        # a composed pose is the caller's own: moving it in place (as Agent moves its pose) does not change
+        # what the same composition gives the next time
+        x_ = Transform(p, a) * Transform(q, b)
+        exp_ = (x_.position.yx, x_.orientation)
+        x_.position = x_.position + Position(3, -2)
+        x_.orientation = x_.orientation * O.L
+        y_ = Transform(p, a) * Transform(q, b)
+        if (y_.position.yx, y_.orientation) != exp_ or y_ is x_:
+            out.append(V('transform/composition-returns-a-pose-moved-by-an-earlier-caller', f'{t} * {u}: {y_} after an earlier result was moved in place'))
+        # `pose *= motion` is `pose = pose * motion`: the object the name stood for (a shared identity, an
+        # agent's pose under another name) is left as it was
+        ident2 = Transform(Position(0, 0), F)
+        acc = ident2
+        acc *= t
+        acc *= u
+        alias = t
+        keep_t = (t.position.yx, t.orientation)
+        alias *= u
+        if ident2 != Transform(Position(0, 0), F) or (t.position.yx, t.orientation) != keep_t or acc != t * u or alias != t * u:
+            out.append(V('transform/augmented-assignment-changes-the-left-operand-in-place', f'{t} *= {u}: identity now {ident2}, left operand now {t}'))
+            return out
         # a pose is a mutable object (Agent moves and turns by assigning to it): the laws must hold for
         # its current value at every point of its life, whatever was computed from it before
         tm = Transform(p, a)
